@@ -17,4 +17,5 @@ MUTANTS = [
     M('C05', 'EQ signed divisions sample the sign of b first', B + 'div.fj', "        .mov negative_a, a+dw*(n-1)\n        .mov negative_b, b+dw*(n-1)\n", "        .mov negative_b, b+dw*(n-1)\n        .mov negative_a, a+dw*(n-1)\n", None, count=2),
     M('C05', 'EQ signed divisions clear the flag before sampling', B + 'div.fj', "        .mov negative_a, a+dw*(n-1)\n        .mov negative_b, b+dw*(n-1)\n        .zero one_negative\n", "        .zero one_negative\n        .mov negative_a, a+dw*(n-1)\n        .mov negative_b, b+dw*(n-1)\n", None, count=2),
     M('C05', 'bit.mov n loses its same-address guard while the doc still says it works', B + 'memory.fj', "    def mov n, dst, src @ end {\n        stl.comp_if1 dst==src, end\n        rep(n, i) .unsafe_mov dst+i*dw, src+i*dw\n      end:\n    }", "    def mov n, dst, src {\n        rep(n, i) .unsafe_mov dst+i*dw, src+i*dw\n    }", 'C05.ALIAS-SAFE'),
+    M('C05', 'mul_loop adds into the low half of its accumulator', 'flipjump/stl/bit/mul.fj', "        .add n, res, dst          //Comp: n(8@+14)", "        .add n-1, res, dst          //Comp: n(8@+14)", 'C05.CARRY-TOP'),
 ]
